@@ -220,14 +220,20 @@ Proof.
 Qed.
 
 Definition f12_free (h : list iop) : Prop := forall ws ev, In (IEvent ws ev) h -> cud_refs_arg_free ev.
+(* explicit IDs of sync clients lie above the singleton band *)
+Definition explicit_apart (h : list iop) : Prop := forall ws ev, In (IEvent ws ev) h -> explicit_above_singletons ev.
+(* no explicit IDs at all (only needed for the code without the pre-pass over explicit IDs, F43) *)
+Definition explicit_free (h : list iop) : Prop :=
+  forall ws ev, In (IEvent ws ev) h -> Forall (fun r => is_raw (r_id r) = true) (e_arg ev ++ e_creates ev).
 
 Lemma model_satisfies_gen au ps : forall h K st,
   (forall ws, inv (N.of_nat (hist_rows h) + K) (st ws)) -> (forall ws, inv_u (st ws)) ->
   Forall (fun x => x + 1 + N.of_nat (hist_rows h) + K < two64) (hist_ids h) ->
   singles_ok h -> au = true \/ arg_ids_raw h -> ps = true \/ f12_free h ->
+  explicit_apart h -> c04_sync_prepass = true \/ explicit_free h ->
   satisfies_from (fun k => w_log (st k)) (model_trace_gen au ps st h) = true.
 Proof.
-  induction h as [|[ws0 ev|] t IH]; intros K st HI HU HB HS HA HF; [reflexivity| |].
+  induction h as [|[ws0 ev|] t IH]; intros K st HI HU HB HS HA HF HX HP; [reflexivity| |].
   - cbn [model_trace_gen satisfies_from]. cbn [hist_rows hist_ids] in HI, HB.
     apply Forall_app in HB. destruct HB as [HB1 HB2].
     assert (HS0 : Forall single_ok (e_creates ev)) by (apply (HS ws0 ev); left; reflexivity).
@@ -238,6 +244,13 @@ Proof.
     { destruct HF as [PS|FR]; [left; exact PS|right]. intros a b I. apply (FR a b). right. exact I. }
     assert (HA0 : au = true \/ Forall (fun r => is_raw (r_id r) = true) (e_arg ev)).
     { destruct HA as [AU|RAW]; [left; exact AU|right; apply (RAW ws0 ev); left; reflexivity]. }
+    assert (HXt : explicit_apart t) by (intros a b I; apply (HX a b); right; exact I).
+    assert (HPt : c04_sync_prepass = true \/ explicit_free t).
+    { destruct HP as [PP|FR]; [left; exact PP|right]. intros a b I. apply (FR a b). right. exact I. }
+    assert (HX0 : explicit_above_singletons ev) by (apply (HX ws0 ev); left; reflexivity).
+    assert (HP0 : forall g0, c04_sync_prepass = true \/ explicit_below g0 ev).
+    { intros g0. destruct HP as [PP|FR]; [left; exact PP|right]. unfold explicit_below.
+      eapply Forall_impl; [|exact (FR ws0 ev (or_introl eq_refl))]. cbn. intros r R C. congruence. }
     assert (HF0 : ps = true \/ cud_refs_arg_free ev).
     { destruct HF as [PS|FR]; [left; exact PS|right; apply (FR ws0 ev); left; reflexivity]. }
     destruct (step_event_gen au ps (st ws0) ev) as [w' o] eqn:E. cbn [fst snd].
@@ -255,7 +268,7 @@ Proof.
       - rewrite upd_other by exact NE. apply HU. }
     assert (HB' : Forall (fun x => x + 1 + N.of_nat (hist_rows t) + K < two64) (hist_ids t)).
     { eapply Forall_impl; [|exact HB2]. cbn. intros; lia. }
-    specialize (IH K (upd st ws0 w') HI' HU' HB' HSt HAt HFt).
+    specialize (IH K (upd st ws0 w') HI' HU' HB' HSt HAt HFt HXt HPt).
     destruct o as [|ev' rep]; cbn [out_obs o_ok].
     + (* rejected: nothing stored *)
       assert (W : w' = st ws0).
@@ -285,7 +298,9 @@ Proof.
         - apply nodupb_NoDup. eapply chain_NoDup. exact CH.
         - apply forallb_forall. intros x I. apply negb_true_iff. apply memb_false. intros J.
           pose proof (chain_bounds _ _ _ CH x I) as [L _]. pose proof (HU ws0) as U. unfold inv_u in U.
-          rewrite Forall_forall in U. specialize (U x J). lia. }
+          rewrite Forall_forall in U. specialize (U x J). lia.
+        - apply nodupb_NoDup. cbn [o_creates o_arg].
+          exact (stored_ids_distinct_proved au ps _ ev _ ev' rep Hv HS0 A0 RM0 HX0 (HP0 _) RG). }
       rewrite FR. cbn [andb o_creates o_arg].
       rewrite <- IH. apply satisfies_from_ext. intros k. unfold upd. destruct (k =? ws0) eqn:EK; [|reflexivity].
       rewrite LOG. unfold event_ids. reflexivity.
@@ -297,14 +312,18 @@ Proof.
     { destruct HF as [PS|FR]; [left; exact PS|right]. intros a b I. apply (FR a b). right. exact I. }
     assert (HI' : forall ws, inv (N.of_nat (hist_rows t) + K) (recover (st ws))) by (intros ws; apply recover_inv; apply HI).
     assert (HU' : forall ws, inv_u (recover (st ws))) by (intros ws; apply (recover_inv _ _ (HI ws))).
-    rewrite <- (IH K (fun k => recover (st k)) HI' HU' HB HSt HAt HFt). apply satisfies_from_ext. intros k. reflexivity.
+    assert (HXt : explicit_apart t) by (intros a b I; apply (HX a b); right; exact I).
+    assert (HPt : c04_sync_prepass = true \/ explicit_free t).
+    { destruct HP as [PP|FR]; [left; exact PP|right]. intros a b I. apply (FR a b). right. exact I. }
+    rewrite <- (IH K (fun k => recover (st k)) HI' HU' HB HSt HAt HFt HXt HPt). apply satisfies_from_ext. intros k. reflexivity.
 Qed.
 
 Theorem model_satisfies_proved : forall au ps h,
   bounded h -> singles_ok h -> au = true \/ arg_ids_raw h -> ps = true \/ f12_free h ->
+  explicit_apart h -> c04_sync_prepass = true \/ explicit_free h ->
   satisfies (model_trace_gen au ps st_init h) = true.
 Proof.
-  intros au ps h [B1 B2] HS HA HF. unfold satisfies.
+  intros au ps h [B1 B2] HS HA HF HX HP. unfold satisfies.
   rewrite (satisfies_from_ext _ (fun _ => []) (fun k => w_log (st_init k))) by reflexivity.
   apply (model_satisfies_gen au ps h 0); try assumption.
   - intros ws. apply init_inv. lia.
@@ -321,4 +340,14 @@ Definition f12_freeb (h : list iop) : bool :=
 Lemma f12_freeb_sound h : f12_freeb h = true -> f12_free h.
 Proof.
   unfold f12_freeb, f12_free. rewrite forallb_forall. intros H ws ev I. apply arg_freeb_sound. exact (H _ I).
+Qed.
+
+Definition explicit_apartb (h : list iop) : bool :=
+  forallb (fun o => match o with
+                    | IEvent _ ev => forallb (fun r => is_raw (r_id r) || (c04_max_singleton_id <? r_id r)) (e_arg ev ++ e_creates ev)
+                    | IRestart => true end) h.
+Lemma explicit_apartb_sound h : explicit_apartb h = true -> explicit_apart h.
+Proof.
+  unfold explicit_apartb, explicit_apart, explicit_above_singletons. rewrite forallb_forall. intros H ws ev I.
+  specialize (H _ I). cbn in H. apply forallb_Forall in H. eapply Forall_impl; [|exact H]. cbn. intros r A R. lia.
 Qed.
